@@ -3,7 +3,7 @@ const FILEPATH = '.+?';
 const LINE = '\\d+';
 const COL = '\\d+';
 const MESSAGE = '.+?';
-const KIND = '.+?';
+const KIND = '[^\\]\\s]+'; // Kind never contains ']' nor spaces. It avoids confusion with ' [' ... ']' in the message
 
 let regexp = '^E?(F)E*:E*(L)E*:E*(C)E*: E*(M)E* \\[(K)\\]$';
 regexp = regexp.replaceAll('E', ESCAPE);
